@@ -8,7 +8,7 @@ use async_std::io::{prelude::SeekExt, Cursor, Read, Seek, SeekFrom, Write};
 use async_std::sync::{Arc, RwLock};
 use async_trait::async_trait;
 use futures::task::{Context, Poll};
-use futures::{Stream, StreamExt};
+use futures::Stream;
 use std::collections::hash_map::Entry;
 use std::collections::HashMap;
 use std::fmt;
@@ -35,16 +35,6 @@ impl AsyncMemoryFS {
         AsyncMemoryFS {
             handle: Arc::new(RwLock::new(AsyncMemoryFsImpl::new())),
         }
-    }
-
-    async fn ensure_has_parent(&self, path: &str) -> VfsResult<()> {
-        let separator = path.rfind('/');
-        if let Some(index) = separator {
-            if self.exists(&path[..index]).await? {
-                return Ok(());
-            }
-        }
-        Err(VfsErrorKind::Other("Parent path does not exist".into()).into())
     }
 }
 
@@ -210,8 +200,9 @@ impl AsyncFileSystem for AsyncMemoryFS {
     }
 
     async fn create_dir(&self, path: &str) -> VfsResult<()> {
-        self.ensure_has_parent(path).await?;
         let map = &mut self.handle.write().await.files;
+        // the parent check and the insertion happen under the same lock
+        ensure_parent_directory(map, path)?;
         let entry = map.entry(path.to_string());
         match entry {
             Entry::Occupied(file) => {
@@ -244,9 +235,10 @@ impl AsyncFileSystem for AsyncMemoryFS {
     }
 
     async fn create_file(&self, path: &str) -> VfsResult<Box<dyn Write + Send + Unpin>> {
-        self.ensure_has_parent(path).await?;
         let content = Arc::new(Vec::<u8>::new());
         let mut handle = self.handle.write().await;
+        // the parent check and the insertion happen under the same lock
+        ensure_parent_directory(&handle.files, path)?;
         if let Some(existing) = handle.files.get(path) {
             if existing.file_type == VfsFileType::Directory {
                 return Err(VfsErrorKind::Other("Path is a directory".into()).into());
@@ -308,14 +300,17 @@ impl AsyncFileSystem for AsyncMemoryFS {
     }
 
     async fn remove_dir(&self, path: &str) -> VfsResult<()> {
-        if self.read_dir(path).await?.next().await.is_some() {
+        let mut handle = self.handle.write().await;
+        // the type check, the emptiness check and the removal happen under the same lock
+        let file = handle.files.get(path).ok_or(VfsErrorKind::FileNotFound)?;
+        if file.file_type != VfsFileType::Directory {
+            return Err(VfsErrorKind::Other("Not a directory".into()).into());
+        }
+        let prefix = format!("{}/", path);
+        if handle.files.keys().any(|key| key.starts_with(&prefix)) {
             return Err(VfsErrorKind::Other("Directory to remove is not empty".into()).into());
         }
-        let mut handle = self.handle.write().await;
-        handle
-            .files
-            .remove(path)
-            .ok_or(VfsErrorKind::FileNotFound)?;
+        handle.files.remove(path);
         Ok(())
     }
 }
@@ -451,6 +446,18 @@ mod tests {
         assert_eq!(&dest.read_to_string().await?, "Hello World");
         Ok(())
     }
+}
+
+/// Checks, on the locked map, that the parent of `path` exists and is a directory
+fn ensure_parent_directory(files: &HashMap<String, AsyncMemoryFile>, path: &str) -> VfsResult<()> {
+    if let Some(index) = path.rfind('/') {
+        return match files.get(&path[..index]) {
+            Some(parent) if parent.file_type == VfsFileType::Directory => Ok(()),
+            Some(_) => Err(VfsErrorKind::Other("Parent path is not a directory".into()).into()),
+            None => Err(VfsErrorKind::Other("Parent path does not exist".into()).into()),
+        };
+    }
+    Err(VfsErrorKind::Other("Parent path does not exist".into()).into())
 }
 
 fn ensure_file(file: &AsyncMemoryFile) -> VfsResult<()> {
